@@ -24,10 +24,12 @@ TABLE = [
     ("C03", r".*_R", r"span\.|hinit|support", ["span_hinit_probe", "rk4_overshoot"]),
     ("C11", r".*_R", r"step\.|hinit", ["step_bounds"]),
     ("C11", r".*", r".*", ["step_bounds", "first_step_reaches_xend"]),
-    ("C07", r"bdf", r".*", ["bdf_interpolant_history", "dense_midstep_order"]),
+    ("C07", r"bdf", r".*", ["bdf_interpolant_history", "bdf_rescaling_accuracy", "dense_midstep_order"]),
+    ("C06", r"bdf_hist", r".*", ["bdf_rescaling_accuracy", "dense_end_points"]),
     ("C06", r"bdf", r"newton|back_value|factor", ["bdf_interpolant_history"]),
     ("C07", r".*", r".*", ["dense_midstep_order"]),
     ("C06", r"rk4|coef_dense", r"dense", ["dense_midstep_order"]),
+    ("C06", r"rk4|rk23|dp5|dp8", r"proto\.|interp|support", ["sol_at_every_sample", "dense_end_points"]),
     ("C06", r"radau|bdf", r"dense\.|interp|hist\.", ["dense_end_points", "radau_interpolant_interval"]),
     ("C19", r"radau", r"interpolant_interval|dense\.", ["radau_interpolant_interval"]),
     ("C06", r".*", r"dense\.|interp\.", ["event_interpolant_right_end"]),
@@ -35,7 +37,7 @@ TABLE = [
     ("C19", r".*", r"fsal|proto\.|naccpt", ["counters", "modified_solution_doubling"]),
     ("C19", r"radau|bdf|rk|dp", r".*", ["modified_solution_doubling", "initial_modified_solution"]),
     ("C02", r".*", r"fsal", ["counters"]),
-    ("C04", r".*", r"term\.|safety", ["termination", "negative_time_blowup"]),
+    ("C04", r".*", r"term\.|safety|support|nan", ["termination", "negative_time_blowup"]),
     ("C17", r"matrix_sub|matrix_add", r".*", ["matrix_arith_dense_model"]),
     ("C17", r".*", r".*", ["matrix_dense_model"]),
     ("C16", r"lucx", r"max_tracks|maximal|multipliers", ["complex_multiplier_modulus", "lu_small"]),
